@@ -151,7 +151,7 @@ FIXED = [
 
 def run(ck: Check):
     ck.trusted = TRUST
-    ck.prove(extra_targets=["Corr/Check_cur.v"])
+    ck.prove(extra_targets=["Corr/Check_cur.v", "Conc/CurCtxExamples.v"])
     results = collect(ck, ck.n(1200, 25000), 28, FIXED)
     terms = [case_term(r) for r in results]
     bad = ck.coq_eval("cur", HEADER, terms, "cur_case", "check_cur", shard=200)
